@@ -88,6 +88,8 @@ theorem cos (ha : TInv na a) : TInv na (.cos a) := fun τ ρ => by
   simp only [Ex.evalR, Ex.Reg, (ha τ ρ).1, (ha τ ρ).2, and_self]
 theorem acos (ha : TInv na a) : TInv na (.acos a) := fun τ ρ => by
   simp only [Ex.evalR, Ex.Reg, (ha τ ρ).1, (ha τ ρ).2, and_self]
+theorem clamp1 (ha : TInv na a) : TInv na (.clamp1 a) := fun τ ρ => by
+  simp only [Ex.evalR, Ex.Reg, (ha τ ρ).1, (ha τ ρ).2, and_self]
 theorem ln (ha : TInv na a) : TInv na (.ln a) := fun τ ρ => by
   simp only [Ex.evalR, Ex.Reg, (ha τ ρ).1, (ha τ ρ).2, and_self]
 theorem atan2 (ha : TInv na a) (hb : TInv na b) : TInv na (.atan2 a b) := fun τ ρ => by
@@ -127,7 +129,7 @@ theorem angleValue_tinv {na : Nat} (i j k : Nat) (hi : i < na) (hj : j < na) (hk
     TInv na (angleValue i j k) :=
   have rij := TInvV.vsub_pos (na := na) i j hi hj
   have rkj := TInvV.vsub_pos (na := na) k j hk hj
-  ((rij.dot rkj).div (rij.len.mul rkj.len)).acos
+  ((rij.dot rkj).div (rij.len.mul rkj.len)).clamp1.acos
 
 theorem phi_tinv {na : Nat} (i j k l : Nat) (hi : i < na) (hj : j < na) (hk : k < na) (hl : l < na) :
     TInv na (phi i j k l) :=
